@@ -1,6 +1,6 @@
 import DdsModel.Bc
 import DdsModel.Drv.Util
-namespace Dds.Drv
+namespace Dds.Drv.C03
 open Dds Dds.Bc
 
 def c03Fmt (s : String) : Option (Fmt × Nat) :=
@@ -99,4 +99,8 @@ def runC03 (line : String) : String :=
     | _, _, _, _ => "bad-case"
   | _ => "bad-case"
 
+end Dds.Drv.C03
+
+namespace Dds.Drv
+def runC03 : String → String := C03.runC03
 end Dds.Drv
